@@ -233,6 +233,13 @@ def collect(crate, body):
         elif k == 'unwrap':
             s['arg'] = T.unroot(e['arg'])
             s['text'] = f"{e.get('method')}({T.show(e['arg'])})"
+            # the condition under which it fails (compared with vetted entries: a vetted `panic!()` after an unsuccessful
+            # search and an `.expect()` on the same search fail under the same condition)
+            a = s['arg']
+            if isinstance(a, tuple) and a and a[0] in ('optproj', 'optmap') and isinstance(a[1], tuple) and a[1] and a[1][0] == 'first':
+                a = a[1]
+            kind = 'Ok' if 'Result' in str(node.get('recv_ty', '')) else 'Some'
+            s['when'] = canon_text(T.show(T.canon(T.tnot(('matches', a, kind)), True)))
         elif k == 'div':
             s['goal'] = T.sub(e['b'], T.const(1))
             s['text'] = f"{T.show(e['a'])} / {T.show(e['b'])}"
